@@ -260,7 +260,7 @@ static void dec_tj(int kind, int a, int b, int cflags, int d, const unsigned cha
 {
   tjhandle tj = tj_dec(); int w, h, ss, prec, ll, cs, sane, nsf, run, rcs[2] = { 0, 0 }, ecs[2] = { 0, 0 };
   tjscalingfactor *sfs = tj3GetScalingFactors(&nsf), sf = { 1, 1 };
-  unsigned long hs[2] = { 0, 0 }; int same = 1, ow = 0, oh = 0, pf = a % TJ_NUMPF, cropped = 0;
+  unsigned long hs[2] = { 0, 0 }; int same = 1, ow = 0, oh = 0, pf = a % TJ_NUMPF, cropped = 0, untouched = 0;
   tjregion cr = { 0, 0, 0, 0 };
   double t0 = cpu_us();
   int hr = tj3DecompressHeader(tj, buf, len);
@@ -298,6 +298,7 @@ static void dec_tj(int kind, int a, int b, int cflags, int d, const unsigned cha
         unsigned long hh = 1469598103934665603UL; int y;
         for (y = 0; y < oh; y++) hh = hh * 31 + fnv(dst + (size_t)y * pitch * ssz, (size_t)ow * ps * ssz);
         hs[run] = hh;
+        if (run == 1) { size_t q; untouched = 1; for (q = 0; q < nbytes; q++) if (dst[q] != 0xA5) { untouched = 0; break; } }
       }
       free(dst);
     } else {
@@ -317,6 +318,7 @@ static void dec_tj(int kind, int a, int b, int cflags, int d, const unsigned cha
           off += (size_t)stride * phh;
         }
         hs[run] = hh;
+        if (run == 1) { size_t q; untouched = 1; for (q = 0; q < ysz; q++) if (dst[q] != 0xA5) { untouched = 0; break; } }
       }
       free(dst);
     }
@@ -326,8 +328,8 @@ static void dec_tj(int kind, int a, int b, int cflags, int d, const unsigned cha
     int ok0 = rcs[0] == 0 || (rcs[0] == -1 && ecs[0] == TJERR_WARNING);
     int ok1 = rcs[1] == 0 || (rcs[1] == -1 && ecs[1] == TJERR_WARNING);
     same = (ok0 == ok1) && (!ok0 || hs[0] == hs[1]);
-    printf("dec k=%d hdr=%d sane=1 w=%d h=%d ss=%d prec=%d ll=%d cs=%d pf=%d sf=%d/%d crop=%d ow=%d oh=%d rc=%d,%d ec=%d,%d done=%d same=%d oh=%lx t=%.0f\n",
-           kind, hr, w, h, ss, prec, ll, cs, pf, sf.num, sf.denom, cropped, ow, oh, rcs[0], rcs[1], ecs[0], ecs[1], ok0, same, hs[0], cpu_us() - t0);
+    printf("dec k=%d hdr=%d sane=1 w=%d h=%d ss=%d prec=%d ll=%d cs=%d pf=%d sf=%d/%d crop=%d ow=%d oh=%d rc=%d,%d ec=%d,%d done=%d same=%d untouched=%d oh=%lx t=%.0f\n",
+           kind, hr, w, h, ss, prec, ll, cs, pf, sf.num, sf.denom, cropped, ow, oh, rcs[0], rcs[1], ecs[0], ecs[1], ok0, same, untouched, hs[0], cpu_us() - t0);
   }
 }
 
